@@ -1,12 +1,12 @@
 ------------------------------ MODULE FragTrace ------------------------------
 (* Trace specification for C08: validates executions of the real IPv4Reassembler (harness/ip_frag.cpp)
-   against the reference reassembler FragAbs.  Contexts are the datagram indices 1, 2 (their abstract keys
+   against the reference reassembler FragAbs.  Contexts are the datagram indices 1..8 (their abstract keys
    -- identification and address pair -- are distinct in every generated mode). *)
 EXTENDS TraceIO, Integers, FiniteSets
 VARIABLE seen
 vars == <<ex, l, seen>>
 A == INSTANCE FragAbs
-Init == \E s \in Starts : TraceInit(s) /\ seen = [k \in {1, 2} |-> {}]
+Init == \E s \in Starts : TraceInit(s) /\ seen = [k \in 1..8 |-> {}]
 
 Frag == /\ IsEvent("frag")
         /\ LET f == [d |-> Ev.d, off |-> Ev.off, len |-> Ev.len, mf |-> Ev.mf]
